@@ -1,6 +1,6 @@
 SPECIFICATION Spec
-CONSTANT DVariant = "faithful"
-CONSTANT Tier = "thorough"
+CONSTANT DVariant = "u16_narrow_first"
+CONSTANT Tier = "quick"
 INVARIANT RoundTrip
 INVARIANT Minimal
 INVARIANT WidthCompat
